@@ -92,150 +92,157 @@ def check(repo, rep, tier):
                      "the always-loadable fall-back `nobackend` must be the last row (auto-detection takes the first "
                      "loadable row)", "nobackend-last")
 
-    # ---------------- locate stages
-    body = m.tree.body
-    stage1 = stage2 = stage3 = None
-    for i, n in enumerate(body):
-        if isinstance(n, ast.For) and norm(n.iter) == regname and mentions(n, "sys.modules") and stage1 is None:
-            stage1 = (i, n)
-        elif isinstance(n, ast.If) and stage2 is None and mentions(n, "os.environ") and mentions(n, "import_module"):
-            stage2 = (i, n)
-        elif isinstance(n, ast.If) and stage2 is not None and stage3 is None and mentions(n.test, "backend") \
-                and not mentions(n, "os.environ") and any(isinstance(x, ast.For) for x in ast.walk(n)):
-            stage3 = (i, n)
-    if not (stage1 and stage2 and stage3):
-        raise AnalysisError("selection stages not found at module level of pysnark.runtime (stage1=%s stage2=%s stage3=%s)"
-                            % (bool(stage1), bool(stage2), bool(stage3)))
+    # ---------------- symbolic execution of the selection code (sa/selection.py)
+    from ..selection import run_selection
+    sel, outs, stmts = run_selection(repo, m, regname, regnode, rows)
+    loc = lambda n: "%s:%s" % (m.relpath, getattr(n, "lineno", "?"))  # noqa: E731
+    first_stmt = stmts[0]
 
-    def governing(stage_node, inner):
-        """Conjuncts of every `if` test between the stage statement and `inner` (true arms only)."""
+    def kinds(s):
+        """decision kinds in the order they were first taken on this path"""
         out = []
-        chain = [p for p in parents(inner) if isinstance(p, ast.If)]
-        for p in chain + ([stage_node] if stage_node not in chain else []):
-            if p is stage_node or any(q is stage_node for q in parents(p)):
-                t = p.test
-                out += t.values if isinstance(t, ast.BoolOp) and isinstance(t.op, ast.And) else [t]
+        matched = set()
+        for a, t in s.conds:
+            k = a[0]
+            if k == "env_eq" and t:
+                matched.add((a[1], a[2]))
+            if k == "import_ok":
+                k = "named-import" if (a[1], a[2]) in matched else "auto-import"
+            if k not in out:
+                out.append(k)
         return out
-    r2 = rep.rule("R-C19-2", "stage order, guards, paired assignment, first match wins", floor=8)
-    loc = lambda n: "%s:%s" % (m.relpath, n.lineno)  # noqa: E731
-    if stage1[0] < stage2[0] < stage3[0]:
-        r2.ok(loc(stage1[1]), RT, "stage order: sys.modules scan < environment < auto-detect")
-    else:
-        r2.violation(loc(stage1[1]), RT, "positions %d,%d,%d" % (stage1[0], stage2[0], stage3[0]),
-                     "selection stages are not in the order pre-import, environment, auto-detect", "order")
-    for label, st in (("environment", stage2), ("auto-detect", stage3)):
-        t = st[1].test
-        loops_ = [x for x in ast.walk(st[1]) if isinstance(x, ast.For) and norm(x.iter) == regname]
-        conj = governing(st[1], loops_[0]) if loops_ else (t.values if isinstance(t, ast.BoolOp) and isinstance(t.op, ast.And) else [t])
-        if any(norm(c) in ("backend is None", "backend == None", "not backend") for c in conj):
-            r2.ok(loc(st[1]), RT, "%s stage guarded by `backend is None`" % label)
-        else:
-            r2.violation(loc(st[1]), RT, norm(t), "%s stage is not guarded by `backend is None`: it would override an "
-                         "earlier selection" % label, "guard/%s" % label)
-    # nothing between the stages assigns backend
-    for i in range(stage1[0] + 1, stage3[0]):
-        n = body[i]
-        if n is stage2[1]:
+
+    def show_path(s):
+        return " ".join("%s%s" % ("" if t else "not ", "/".join(str(x) for x in a)) for a, t in s.conds)[:220]
+    r2 = rep.rule("R-C19-2", "stage order, guards, paired assignment, first match wins (all symbolic outcomes)", floor=8)
+    # (1) pairing: the reported name and the module in effect come from the same registry row
+    rowmap = dict(rows)
+    bad_pairs = {}
+    n_ok = 0
+    for s, status, _p in outs:
+        if status != "normal":
             continue
-        for x in ast.walk(n):
-            if isinstance(x, ast.Assign) and any(norm(t) in ("backend", "backend_name") for t in x.targets):
-                r2.violation(loc(x), RT, norm(x), "backend reassigned between the selection stages", "between")
-    # paired assignments
-    pairs = 0
-    for st_label, st in (("pre-import", stage1), ("environment", stage2), ("auto-detect", stage3)):
-        for blk in _blocks(st[1]):
-            nm = [s for s in blk if isinstance(s, ast.Assign) and norm(s.targets[0]) == "backend_name"]
-            bk = [s for s in blk if isinstance(s, ast.Assign) and norm(s.targets[0]) == "backend"]
-            if not nm and not bk:
-                continue
-            pairs += 1
-            where = loc((nm or bk)[0])
-            if len(nm) != 1 or len(bk) != 1:
-                r2.violation(where, RT, norm(blk)[:200], "backend and backend_name are not assigned together in the %s "
-                             "stage" % st_label, "pair/%s/%d" % (st_label, pairs))
-                continue
-            nv, bv = nm[0].value, bk[0].value
-            ok = False
-            if isinstance(nv, ast.Subscript) and norm(nv.slice) == "0":
-                row = norm(nv.value)
-                btxt = norm(bv)
-                ok = btxt in ("sys.modules[%s[1]]" % row, "importlib.import_module(%s[1])" % row,
-                              "import_module(%s[1])" % row)
-                desc = "backend_name = %s[0]; backend = %s" % (row, btxt)
-            elif isinstance(nv, ast.Constant):
-                want = dict(rows).get(nv.value)
-                ok = want is not None and norm(bv) == want
-                desc = "backend_name = %r; backend = %s" % (nv.value, norm(bv))
-            else:
-                desc = "%s; %s" % (norm(nm[0]), norm(bk[0]))
-            if ok:
-                r2.ok(where, RT, desc, st_label)
-            else:
-                r2.violation(where, RT, desc, "name and module are not taken from the same registry row (%s stage)" % st_label,
-                             "pair/%s" % st_label)
-    # first match wins
-    s1if = [x for x in stage1[1].body if isinstance(x, ast.If)]
-    if s1if and any(isinstance(x, ast.Break) for x in s1if[0].body) and not isinstance(stage1[1].iter, ast.Call):
-        r2.ok(loc(stage1[1]), RT, "pre-import scan in registry order, break on first hit")
+        nm, bk = s.env.get("backend_name", ("none",)), s.env.get("backend", ("none",))
+        ok = False
+        if bk[0] == "none":
+            ok = True
+        elif bk[0] in ("preloaded", "imported"):
+            ok = nm[0] == "rowname" and nm[1:] == bk[1:]
+        elif bk[0] == "modobj":
+            ok = nm[0] == "const" and rowmap.get(nm[1]) == bk[1]
+        if ok:
+            n_ok += 1
+        else:
+            ev_ = [e for e in s.events if e[0] in ("set_backend", "set_name")]
+            node = ev_[-1][2] if ev_ else first_stmt
+            bad_pairs.setdefault((loc(node), str(nm), str(bk)), (node, s))
+    for (w, nm, bk), (node, s) in sorted(bad_pairs.items())[:4]:
+        r2.violation(w, RT, "backend_name = %s, backend = %s on the path {%s}" % (nm, bk, show_path(s)),
+                     "name and module are not taken from the same registry row: the reported backend_name does not identify "
+                     "the module in effect", "pair/%s" % w.split(":")[-1])
+    if not bad_pairs:
+        r2.ok(loc(first_stmt), RT, "%d symbolic outcomes: (backend_name, backend) always name and module of one registry row, or "
+              "('nobackend', pysnark.nobackend), or backend None" % n_ok)
+    # (2) no selection is overridden: later stages are guarded, scans stop at the first hit
+    over = {}
+    for s, status, _p in outs:
+        for e in s.events:
+            if e[0] == "set_backend" and e[1][1]:
+                over.setdefault(loc(e[2]), (e, s))
+    for w, (e, s) in sorted(over.items())[:4]:
+        in_loop_same = sum(1 for x in s.events if x[0] == "set_backend" and x[2] is e[2]) > 1
+        r2.violation(w, RT, "backend assigned %s although already selected, on the path {%s}" % (e[1][0], show_path(s)),
+                     ("the scan does not stop at the first registry row that matches (a later row overrides it)" if in_loop_same else
+                      "a later stage is not guarded by `backend is None`: it overrides the earlier selection"),
+                     "override/%s" % ("first" if in_loop_same else "guard"))
+    if not over:
+        r2.ok(loc(first_stmt), RT, "no path assigns `backend` twice", "later stages run only while backend is None; scans stop at the first hit")
+    # (3) precedence: pre-imported module, then environment, then auto-detection
+    order_bad = None
+    seen_kinds = set()
+    for s, status, _p in outs:
+        ks = kinds(s)
+        seen_kinds.update(ks)
+        for a, b in (("in_sysmodules", "env_set"), ("env_set", "ipython"), ("env_set", "auto-import"), ("in_sysmodules", "ipython"),
+                     ("in_sysmodules", "auto-import")):
+            if a in ks and b in ks and ks.index(a) > ks.index(b):
+                order_bad = order_bad or (a, b, s)
+    need = {"in_sysmodules", "env_set", "env_eq", "auto-import"}
+    if order_bad:
+        a, b, s = order_bad
+        r2.violation(loc(first_stmt), RT, "decisions on a path: %s" % " < ".join(kinds(s)), "selection stages are not in the order "
+                     "pre-import, environment, auto-detect (`%s` is decided after `%s`)" % (a, b), "order")
+    elif not need <= seen_kinds:
+        r2.violation(loc(first_stmt), RT, "decisions found: %s" % sorted(seen_kinds), "a selection stage is missing (%s)" % ", ".join(
+            sorted(need - seen_kinds)), "order/missing")
     else:
-        r2.violation(loc(stage1[1]), RT, norm(stage1[1])[:160], "pre-import scan does not stop at the first registry row "
-                     "found in sys.modules", "first/pre-import")
-    loops3 = [x for x in ast.walk(stage3[1]) if isinstance(x, ast.For)]
-    ok3 = False
-    for lp in loops3:
-        if norm(lp.iter) == regname:
-            for t in ast.walk(lp):
-                if isinstance(t, ast.Try):
-                    imp = [i for i, s in enumerate(t.body) if "import_module" in norm(s)]
-                    brk = [i for i, s in enumerate(t.body) if isinstance(s, ast.Break)]
-                    if imp and brk and brk[0] > imp[0] and t.handlers:
-                        ok3 = True
-    if ok3:
-        r2.ok(loc(stage3[1]), RT, "auto-detect iterates the registry in order and breaks after the first successful import")
+        r2.ok(loc(first_stmt), RT, "every path decides: sys.modules scan < PYSNARK_BACKEND < auto-detection")
+    for k, what in (("in_sysmodules", "stage 1 scans sys.modules for the registry modules"),
+                    ("env_set", "stage 2 consults os.environ['PYSNARK_BACKEND']"),
+                    ("ipython", "stage 3 selects nobackend inside IPython"),
+                    ("auto-import", "stage 3 imports registry modules in order until one loads")):
+        if k in seen_kinds:
+            r2.ok(loc(first_stmt), RT, what)
+    # registry order
+    reordered = [e for s, _st, _p in outs for e in s.events if e[0] == "reordered"]
+    if reordered:
+        r2.violation(loc(reordered[0][2]), RT, norm(reordered[0][2].iter), "the registry is not scanned in its own order: "
+                     "'first match' no longer means the first registry row", "first/order")
     else:
-        r2.violation(loc(stage3[1]), RT, norm(stage3[1])[:200], "auto-detection does not take the first loadable backend in "
-                     "registry order", "first/auto")
-    # environment comparison
-    cmp_ok = False
-    for x in ast.walk(stage2[1]):
-        if isinstance(x, ast.Compare) and len(x.ops) == 1 and isinstance(x.ops[0], ast.Eq):
-            sides = {norm(x.left), norm(x.comparators[0])}
-            if any("os.environ" in s for s in sides) and any(s.endswith("[0]") for s in sides):
-                cmp_ok = True
-    if cmp_ok:
-        r2.ok(loc(stage2[1]), RT, "environment value compared for equality with the row's name")
+        r2.ok(loc(first_stmt), RT, "every loop scans the registry in table order")
+    # (4) the environment value is matched exactly against registry names
+    env_unknown = [t for t, _n in sel.unknown_tests if "environ" in t]
+    if "env_eq" in seen_kinds and not env_unknown:
+        r2.ok(loc(first_stmt), RT, "environment value compared for equality with the row's name")
     else:
-        r2.violation(loc(stage2[1]), RT, norm(stage2[1])[:200], "environment value is not matched exactly against registry "
-                     "names", "envcmp")
+        r2.violation(loc(first_stmt), RT, "; ".join(env_unknown)[:160] or "no equality test", "environment value is not matched "
+                     "exactly against registry names", "envcmp")
+    other_unknown = sorted({t for t, _n in sel.unknown_tests if "environ" not in t})
+    for t in other_unknown[:3]:
+        r2.note(loc(first_stmt), RT, t, "test outside the model: both outcomes explored")
 
     # ---------------- R-C19-3
     r3 = rep.rule("R-C19-3", "named backend fails loudly; unknown name reported before fall-back", floor=2)
-    imps = [x for x in ast.walk(stage2[1]) if isinstance(x, ast.Call) and "import_module" in norm(x.func)]
-    if not imps:
-        r3.violation(loc(stage2[1]), RT, norm(stage2[1])[:160], "environment stage never imports the named backend", "env/noimport")
-    for c in imps:
-        in_try = any(isinstance(p, ast.Try) for p in parents(c) if p is not m.tree)
-        if in_try:
-            r3.violation(loc(c), RT, norm(c), "import of the explicitly named backend is wrapped in try: a known but "
-                         "unloadable backend would be skipped silently", "env/try")
-        else:
-            r3.ok(loc(c), RT, norm(c), "exceptions propagate")
-    unk = None
-    env_body = stage2[1].body
-    for x in ast.walk(stage2[1]):
-        if isinstance(x, ast.If) and any(isinstance(y, ast.For) and norm(y.iter) == regname for y in x.body):
-            env_body = x.body
-    for s in env_body:
-        if isinstance(s, ast.If) and norm(s.test) in ("backend is None", "backend == None", "not backend"):
-            if any(isinstance(x, ast.Call) and norm(x.func) in ("print", "warnings.warn", "sys.stderr.write")
-                   for b in s.body for x in ast.walk(b)) or any(isinstance(b, ast.Raise) for b in s.body):
-                unk = s
-    lastloop = max([i for i, s in enumerate(env_body) if isinstance(s, ast.For)] or [-1])
-    if unk is not None and env_body.index(unk) > lastloop:
-        r3.ok(loc(unk), RT, "unknown name reported under `backend is None` after the environment loop")
+    named_fail = []
+    for s, status, _p in outs:
+        matched = {(a[1], a[2]) for a, t in s.conds if a[0] == "env_eq" and t}
+        failed = {(a[1], a[2]) for a, t in s.conds if a[0] == "import_ok" and not t}
+        if matched & failed:
+            named_fail.append((s, status))
+    if not named_fail:
+        r3.violation(loc(first_stmt), RT, "no path imports the module of the row named by PYSNARK_BACKEND",
+                     "environment stage never imports the named backend", "env/noimport")
     else:
-        r3.violation(loc(stage2[1]), RT, norm(stage2[1])[:200], "an unknown PYSNARK_BACKEND value is not reported before "
+        quiet = [(s, st_) for s, st_ in named_fail if st_ != "raise"]
+        if quiet:
+            s = quiet[0][0]
+            c = [e for e in s.events if e[0] == "import-failed"]
+            r3.violation(loc(c[0][2]) if c else loc(first_stmt), RT, "path {%s} continues with backend_name=%s backend=%s" % (
+                show_path(s), s.env.get("backend_name"), s.env.get("backend")),
+                "the import error of the explicitly named backend is swallowed: a known but unloadable backend is skipped silently",
+                "env/try")
+        else:
+            r3.ok(loc(first_stmt), RT, "%d path(s) where the named backend fails to import: the exception propagates" % len(named_fail))
+    unknown_paths = []
+    for s, status, _p in outs:
+        eqs = [(a, t) for a, t in s.conds if a[0] == "env_eq"]
+        if any(a[0] == "env_set" and t for a, t in s.conds) and eqs and not any(t for _a, t in eqs) \
+                and any(e[0] == "exhausted" for e in s.events):
+            unknown_paths.append((s, status))
+    silent = []
+    for s, status in unknown_paths:
+        # timeline: a report (print / warn / raise) must come before the first decision of the auto-detect stage
+        idx_report = [i for i, e in enumerate(s.events) if e[0] == "report"]
+        idx_auto = [i for i, e in enumerate(s.events) if e[0] == "decide" and e[1][0][0] in ("ipython", "import_ok")]
+        if not idx_report or (idx_auto and idx_report[0] > idx_auto[0]):
+            silent.append(s)
+    if not unknown_paths:
+        r3.undecided(loc(first_stmt), RT, "no path with PYSNARK_BACKEND set and no row matching", "unknown-name case not reached")
+    elif silent:
+        r3.violation(loc(first_stmt), RT, "path {%s}" % show_path(silent[0]), "an unknown PYSNARK_BACKEND value is not reported before "
                      "falling back to auto-detection", "env/unknown")
+    else:
+        r3.ok(loc(first_stmt), RT, "%d path(s) with an unknown PYSNARK_BACKEND value: reported before auto-detection starts" % len(unknown_paths))
 
     # ---------------- R-C19-4
     r4 = rep.rule("R-C19-4", "reported name identifies the backend in effect (import graph)", floor=8)
